@@ -10,7 +10,7 @@ from simkit.world import digest
 ID = "C27"
 LEVEL = "exploration"
 ENGINE = "simkit/proxy-world"
-QUICK_RUNS = 5000
+QUICK_RUNS = 12000
 QUICK_BUDGET_S = 150
 THOROUGH_BUDGET_S = 900
 CHUNK = 50
@@ -171,6 +171,44 @@ def generate(rng, tier):
     if fam == "transparent":
         sc["original_dst"] = ["9.9.9.9", 53]
     return sc
+
+
+def shrink_candidates(sc):
+    import copy
+    if sc.get("nvariants", 1) > 1:
+        c = copy.deepcopy(sc)
+        c["nvariants"] = 1
+        yield c
+    if any(op.get("cuts_b") for op in sc["ops"]):
+        c = copy.deepcopy(sc)
+        for op in c["ops"]:
+            if "cuts_b" in op:
+                op["cuts_b"] = []
+        yield c
+    if any(op.get("cuts") for op in sc["ops"]):
+        c = copy.deepcopy(sc)
+        for op in c["ops"]:
+            if "cuts" in op:
+                op["cuts"] = []
+        yield c
+    for i, op in enumerate(sc["ops"]):
+        if op["op"] == "reply" and op.get("reply", {}).get("records"):
+            c = copy.deepcopy(sc)
+            c["ops"][i]["reply"]["records"] = []
+            yield c
+        if op["op"] == "reply" and len(op.get("ks", [])) > 1:
+            for k in op["ks"]:
+                c = copy.deepcopy(sc)
+                c["ops"][i]["ks"] = [k]
+                yield c
+    if sc.get("eager"):
+        c = copy.deepcopy(sc)
+        c["eager"] = False
+        yield c
+    if len(sc.get("connect", [])) > 1:
+        c = copy.deepcopy(sc)
+        c["connect"] = sc["connect"][:1]
+        yield c
 
 
 # ---------------------------------------------------------------------------
